@@ -115,12 +115,22 @@ func (st *c02State) checkRecord(got Record, want *refRec, idx int, ctx string) {
 			}
 			st.seenStr[c.Key] = true
 		}
-		if len(internal) != len(st.labels) {
-			r.Fail("records", lane+"/tool-labels-differ", "%s record %d: internal labels %v, want %v", ctx, idx, internal, st.labels)
-		}
+		// a label supplied by the tool stays tool-internal until a configuration line of the file sets the
+		// same key (it is file configuration from then on, whatever the value) or removes it
+		wantInternal := map[string]string{}
 		for k, v := range st.labels {
+			if !want.touched[k] {
+				wantInternal[k] = v
+			} else {
+				r.Hit("tool label overridden or removed by a file line")
+			}
+		}
+		if len(internal) != len(wantInternal) {
+			r.Fail("records", lane+"/tool-labels-differ", "%s record %d: internal labels %v, want %v", ctx, idx, internal, wantInternal)
+		}
+		for k, v := range wantInternal {
 			if internal[k] != v {
-				r.Fail("records", lane+"/tool-labels-differ", "%s record %d: internal labels %v, want %v", ctx, idx, internal, st.labels)
+				r.Fail("records", lane+"/tool-labels-differ", "%s record %d: internal labels %v, want %v", ctx, idx, internal, wantInternal)
 			}
 		}
 		for _, v := range g.Values {
@@ -243,8 +253,27 @@ func c02LaneReader(t *testing.T, r *sim.Run) {
 		for i := 0; i < nl; i++ {
 			k := []string{".file", ".tool", ".x"}[i]
 			v := fmt.Sprintf("%s-%d", fname, i)
+			if T.Intn(3, "label-settable") == 0 {
+				// a label under a key that lines of the file may set as well, sometimes to the very same value
+				k = sim.Pick(T, gtKeys[:10], "label-key")
+				v = sim.Pick(T, gtVals, "label-val")
+				if _, dup := st.labels[k]; dup {
+					continue
+				}
+			}
 			init = append(init, k, v)
 			st.labels[k] = v
+			if k[0] != '.' && T.Bool("label-echoed") {
+				// the file states the tool's label itself, with the same value, at a drawn line
+				starts := []int{0}
+				for j, c := range text {
+					if c == '\n' && j+1 < len(text) {
+						starts = append(starts, j+1)
+					}
+				}
+				at := starts[T.Intn(len(starts), "echo-at")]
+				text = append(append(append([]byte(nil), text[:at]...), (k+": "+v+"\n")...), text[at:]...)
+			}
 		}
 		src := sim.NewSimReader(r, text)
 		src.Quirks = T.Bool("quirks")
@@ -495,7 +524,7 @@ var c02Engine = &sim.Engine{
 	Rule: "one run = a seeded history of 1-5 generated files read through one reused benchfmt.Reader (Reset between files, tool labels, clones held, files abandoned midway) from a simulated source with drawn chunking, zero-length reads, data+EOF, read errors and truncation at drawn offsets, or through benchfmt.Files over real temporary files; every record is compared with an independent line-by-line reference parser; " +
 		"non-trivial = at least two records compared; distinct = distinct (lane, record/clone/unit-table/fault summary)",
 	Assumptions: []string{
-		"tool labels use keys starting with '.', which no file line can set (as benchfmt.Files does)",
+		"tool labels use keys starting with '.', which no file line can set (as benchfmt.Files does), or - one time in three - a key and value that lines of the file set as well",
 		"measurement values are compared in written form against strconv.ParseFloat; unit normalisation (C04) and exhaustive number syntax (C03) are out of scope",
 		"lower/upper-case classification in the reference covers ASCII, Latin-1 and basic Cyrillic, the scripts the generator uses",
 		"a line longer than bufio.MaxScanTokenSize may end the file with an error (bufio.Scanner's contract); records before it must be exact",
